@@ -18,8 +18,8 @@
     - [AddTasks] ([IsDone] test, [wg.Add]) is one step;
     - NewChild on a parent whose Close has completely finished is outside the model (the real child
       is created but its Close dereferences the parent's nil'ed event scope); the model ignores it;
-    - [Errors()] reads the slice without the mutex (Go data race, not an interleaving bug): reads
-      are atomic here. *)
+    - reads are atomic (after 59678b1 Err()/Errors() take the mutex; before it they could observe a
+      torn slice header and panic — a defect the model cannot express; the stress oracle found it). *)
 From GC Require Import Common.Base.
 From Coq Require Import ZArith.
 
@@ -594,3 +594,106 @@ Definition op_nodone (o : op) : bool := match o with ODoneTask _ => false | _ =>
 Definition op_safe (o : op) : bool := match o with ODoneTask _ | OClose _ => false | _ => true end.
 Definition by_design (k : pkind) : bool := match k with PNegWG | PChan => false | _ => true end.
 Definition bad_panic (o : obs) : bool := match o with OPanic k => negb (by_design k) | _ => false end.
+
+(** *** Sequential driver (used by the correspondence checks of C11 and C12)
+    The harness issues operations one after the other from one goroutine, except Close, which runs
+    in a goroutine of its own (it may block).  After every operation it lets everything settle.
+    The driver below is nothing but a scheduler: thread 0 is the main thread, threads 1..k are the
+    closers (one [OClose] each), every later thread is a watcher spawned by NewIsolated. *)
+Inductive hop := HOp (o : op) | HClose (s : nat).
+
+Definition main_prog (h : list hop) : list op :=
+  flat_map (fun x => match x with HOp o => [o] | HClose _ => [] end) h.
+Definition closer_progs (h : list hop) : list (list op) :=
+  flat_map (fun x => match x with HOp _ => [] | HClose s => [[OClose s]] end) h.
+Definition progs_of (h : list hop) : list (list op) := main_prog h :: closer_progs h.
+
+(** watchers run eagerly: every enabled watcher step (threads with index > k) is taken *)
+Fixpoint first_step (cf : cfg) (b : bool) (ns : list nat) (st : state) : option state :=
+  match ns with
+  | [] => None
+  | n :: ns' => match step cf (n, b) st with Some st' => Some st' | None => first_step cf b ns' st end
+  end.
+Fixpoint settle_watchers (cf : cfg) (fuel k : nat) (st : state) : state :=
+  match fuel with
+  | O => st
+  | S f =>
+    match first_step cf false (seq (S k) (length (ths st) - S k)) st with
+    | Some st' => settle_watchers cf f k st'
+    | None => st
+    end
+  end.
+(** run thread n as far as it goes (to the end of its operation for the main thread) *)
+Fixpoint run_thread (cf : cfg) (fuel k n : nat) (st : state) : state :=
+  match fuel with
+  | O => st
+  | S f =>
+    match step cf (n, true) st with
+    | Some st' =>
+      let st1 := settle_watchers cf 200 k st' in
+      if Nat.eqb n 0 && isnil (t_cur (nth 0 (ths st1) (mk_thread []))) then st1
+      else run_thread cf f k n st1
+    | None => st
+    end
+  end.
+(** started closers, oldest first: the first one that can move runs as far as it goes; repeat *)
+Fixpoint settle_closers (cf : cfg) (fuel k : nat) (started : list nat) (st : state) : state :=
+  match fuel with
+  | O => st
+  | S f =>
+    match first_step cf true started st with
+    | None => st
+    | Some _ =>
+      let fix go (l : list nat) : state :=
+          match l with
+          | [] => st
+          | n :: l' => match step cf (n, true) st with
+                       | Some _ => run_thread cf 400 k n st
+                       | None => go l'
+                       end
+          end in
+      settle_closers cf f k started (go started)
+    end
+  end.
+
+(** observation after each history item *)
+Inductive sobs := SPanic | SAdd (b : bool) | SBool (b : bool).
+Definition erase (o : obs) : list sobs :=
+  match o with OPanic _ => [SPanic] | OAdd b => [SAdd b] | OBool b => [SBool b] | OClosed _ _ => [] end.
+(** closer status: 0 not started, 1 in progress (blocked), 2 returned nil, 3 returned an error, 4 panicked *)
+Definition closer_status (started : bool) (th : thread) : N :=
+  if negb started then 0%N else
+  match t_out th with
+  | [] => 1%N
+  | OClosed _ false :: _ => 2%N
+  | OClosed _ true :: _ => 3%N
+  | _ => 4%N
+  end.
+Record stepobs := { so_main : list sobs; so_closers : list N; so_ctxs : list (bool * nat) }.
+
+Definition observe (k : nat) (started : list nat) (nout : nat) (st : state) : stepobs :=
+  {| so_main := flat_map erase (skipn nout (t_out (nth 0 (ths st) (mk_thread []))));
+     so_closers := map (fun n => closer_status (existsb (Nat.eqb n) started) (nth n (ths st) (mk_thread [])))
+                       (seq 1 k);
+     so_ctxs := map (fun c => (c_done c, length (c_errors c))) (ctxs (sh st)) |}.
+
+Fixpoint drive (cf : cfg) (k : nat) (h : list hop) (started : list nat) (st : state)
+  : list stepobs * state :=
+  match h with
+  | [] => ([], st)
+  | x :: h' =>
+    let nout := length (t_out (nth 0 (ths st) (mk_thread []))) in
+    let '(started1, st1) :=
+        match x with
+        | HOp _ => (started, run_thread cf 400 k 0 st)
+        | HClose _ => let n := S (length started) in
+                      (started ++ [n], run_thread cf 400 k n st)
+        end in
+    let st2 := settle_closers cf 50 k started1 (settle_watchers cf 200 k st1) in
+    let (os, st3) := drive cf k h' started1 st2 in
+    (observe k started1 nout st2 :: os, st3)
+  end.
+
+Definition drive_all (cf : cfg) (h : list hop) : list stepobs * state :=
+  let progs := progs_of h in
+  drive cf (length (closer_progs h)) h [] (init progs).
